@@ -66,6 +66,15 @@ def gen(seed, tier):
             else:
                 segs.append(seg(0, [g.any_frame(icao)]))
         add(o, segs)
+    # an identification squitter whose eight characters are all unprintable: empty callsign, category recorded
+    for blank in (32, 0, 63, 27, 47):
+        for u in (0, 1):
+            for first in (0, 1):
+                icao = r.choice(ICAOS)
+                o = {"U": 1} if u else {}
+                segs = [] if first else [seg(0, [g.f_df17(icao, me_ident(r.randint(1, 4), r.randint(0, 7), [ia5_code(c) for c in "SWR123  "]))])]
+                segs.append(seg(0, [g.f_df17(icao, me_ident(r.randint(1, 4), r.randint(1, 7), [blank] * 8))]))
+                add(o, segs)
     # CLI columns
     for i in range(40 * rep):
         icao = r.choice(ICAOS)
